@@ -87,11 +87,11 @@ def _gen_call(rng, first_threshold):
 def generate(rng, tier, index):
     faulty = rng.random() < 0.45
     endpoint_ok = rng.random() < 0.3
-    kinds = ("node", "str", "int", "iri") if endpoint_ok else ("node", "str", "int", "lang", "date", "iri")
+    kinds = ("node", "str", "int", "iri", "iri2") if endpoint_ok else ("node", "str", "int", "lang", "date", "iri", "iri2")
     n_nodes = rng.choice([3, 4, 6, 8, 10]) if tier == "quick" else rng.choice([3, 4, 6, 8, 10, 14, 20])
     bnodes = (not endpoint_ok and rng.random() < 0.2)
     triples = gen.gen_graph(rng, n_nodes=n_nodes, n_classes=rng.randint(1, 3), n_props=rng.randint(1, 5),
-                            bnodes=bnodes, kinds=kinds)
+                            bnodes=bnodes, kinds=kinds, twins=0 if endpoint_ok else 0.06)
     tp = gen.CUSTOM_TYPE if rng.random() < 0.12 else gen.RDF_TYPE
     triples = gen.retype(gen.ensure_class(triples), tp)
     # rdflib-parsed sources (url) relabel blank nodes on every pass (C08's stated exception): no bnodes there
@@ -107,6 +107,10 @@ def generate(rng, tier, index):
         if "target_classes" in shapers[0]["target"] and rng.random() < 0.4:
             share["target_classes"] = True
             shapers[1]["target"] = copy.deepcopy(shapers[0]["target"])
+        if rng.random() < 0.3:
+            # both Shapers read the very same rdflib.Graph object (the fresh model gets a new one)
+            share["rdflib_graph"] = True
+            shapers[0]["source"] = shapers[1]["source"] = "rdflib"
     seqs = []
     for i in range(n_sh):
         t0 = rng.choice(THRESHOLDS)
@@ -199,6 +203,7 @@ class _World(object):
         self.nt = gen.to_nt(self.triples)
         self.n_files = 0
         self.n_eps = 0
+        self.shared_graph = None
 
     def source_kwargs(self, spec, tag):
         src = spec["source"]
@@ -209,6 +214,11 @@ class _World(object):
             self.n_files += 1
             return {"graph_file_input": sim.write_file("g_%s_%d.nt" % (tag, self.n_files), self.nt)}, None
         if src == "rdflib":
+            if tag.startswith("sut") and self.scen["share"].get("rdflib_graph"):
+                if self.shared_graph is None:
+                    self.shared_graph = gen.to_rdflib_graph(self.triples)
+                    self.sim.probes["shared_rdflib_graph"] += 1
+                return {"rdflib_graph": self.shared_graph}, None
             return {"rdflib_graph": gen.to_rdflib_graph(self.triples)}, None
         if src == "endpoint":
             ep = SimEndpoint(sim, self.triples, row_seed=self.scen.get("row_seed", 0))
